@@ -147,11 +147,13 @@ theorem good_stepIf (c : Bool) {f : NM → Res NM} (h : Good f) : Good (stepIf c
   · exact ⟨x, rfl, rfl, id⟩
   · simpa using h x
 
-theorem good_accent : Good (fun x => (pure (accent x) : Res NM)) := by
-  intro x
-  cases x with
-  | note n => exact ⟨_, rfl, rfl, fun h => by simpa [accent, nonnegL_singleton] using h⟩
-  | mel ns => exact ⟨_, rfl, rfl, id⟩
+/-- `accent` on a note — the only argument `realize_tags` gives it (first step, on `note.copy()`); on a melody the
+code raises `TypeError`, so `accent` is not `Good` as a function of every figure -/
+theorem accent_note_good (c : Bool) (n : Note) :
+    ∃ y, stepIf c accent (.note n) = .ok y ∧ y.duration = n.dur ∧ (0 ≤ n.dur → NonnegL y.notes) := by
+  cases c
+  · exact ⟨_, rfl, rfl, fun h => nonnegL_singleton.mpr h⟩
+  · exact ⟨_, rfl, rfl, fun h => by simpa [nonnegL_singleton] using h⟩
 
 theorem good_mordantWith (aux : Note) : Good (mordantWith id aux) := by
   intro x
@@ -398,11 +400,10 @@ theorem good_chain {fs : List (NM → Res NM)} (h : ∀ f ∈ fs, Good f) : Good
     simp only [chain, hy, hz]
 
 theorem good_steps (tags : List String) (last next : Option Note) :
-    ∀ f ∈ steps id tags last next, Good f := by
+    ∀ f ∈ (steps id tags last next).tail, Good f := by
   intro f hf
-  simp only [steps, List.mem_cons, List.mem_nil_iff, or_false] at hf
-  rcases hf with rfl | rfl | rfl | rfl | rfl | rfl | rfl | rfl | rfl | rfl | rfl | rfl | rfl | rfl | rfl
-  · exact good_stepIf _ good_accent
+  simp only [steps, List.tail_cons, List.mem_cons, List.mem_nil_iff, or_false] at hf
+  rcases hf with rfl | rfl | rfl | rfl | rfl | rfl | rfl | rfl | rfl | rfl | rfl | rfl | rfl | rfl
   · exact good_stepIf _ (good_mordantWith su1)
   · exact good_stepIf _ (good_mordantWith sd1)
   · exact good_stepIf _ (good_mordantWith hu1)
@@ -434,13 +435,18 @@ duration is -/
 theorem realizeTags_id (note : Note) (last next : Option Note) :
     ∃ y, realizeTags id note last next = .ok y ∧ y.duration = note.dur ∧
       (0 ≤ note.dur → NonnegL y.notes) := by
-  obtain ⟨x, hx, hxd, hxn⟩ := good_chain (good_steps note.tags last next) (.note (copy id note))
+  obtain ⟨y0, hy0, hy0d, hy0n⟩ := accent_note_good (note.tags.contains "accent") (copy id note)
+  obtain ⟨x, hx, hxd, hxn⟩ := good_chain (good_steps note.tags last next) y0
+  have hs : steps id note.tags last next
+      = stepIf (note.tags.contains "accent") accent :: (steps id note.tags last next).tail := rfl
+  have hch : chain (steps id note.tags last next) (.note (copy id note)) = .ok x := by
+    rw [hs]; simp only [chain, hy0]; exact hx
+  have hxd' : x.duration = note.dur := by rw [hxd, hy0d]; rfl
   refine ⟨x.clearNoteTags id, ?_, ?_, ?_⟩
-  · have : x.duration = note.dur := hxd
-    simp only [realizeTags, hx, finish, this, if_true]
-  · rw [clearNoteTags_id_duration]; exact hxd
+  · simp only [realizeTags, hch, finish, hxd', if_true]
+  · rw [clearNoteTags_id_duration]; exact hxd'
   · intro h0
-    exact clearNoteTags_id_nonneg x (hxn (nonnegL_singleton.mpr h0))
+    exact clearNoteTags_id_nonneg x (hxn (hy0n h0))
 
 /-! ## Part B : a rounding that fixes every stage piece changes nothing -/
 
@@ -507,13 +513,13 @@ theorem rel_stepIf (rd : Rat → Rat) (c : Bool) {f g : NM → Res NM} (h : Rel 
   · simp [pure, Except.pure, Except.map, NM.mapCopy_of_fix hx]
   · simpa using h x hx
 
-theorem rel_accent (rd : Rat → Rat) : Rel rd (fun x => (pure (accent x) : Res NM)) (fun x => pure (accent x)) := by
+theorem rel_accent (rd : Rat → Rat) : Rel rd accent accent := by
   intro x hx
   cases x with
   | note n =>
     have h := hx n (by simp)
-    simp only [accent, pure, Except.pure, Except.map, NM.mapCopy, copy, h]
-  | mel ns => simp [accent, pure, Except.pure, Except.map, NM.mapCopy_of_fix hx]
+    simp only [accent, Except.map, NM.mapCopy, copy, h]
+  | mel ns => rfl
 
 theorem rel_mordantWith (rd : Rat → Rat) (aux : Note) : Rel rd (mordantWith rd aux) (mordantWith id aux) := by
   intro x hx
@@ -908,9 +914,9 @@ theorem den_note_of_12 {n : Note} (h : 12 * n.dur.den ≤ Gen.LIMIT_DENOM) : den
   rw [denOK_iff, NM.note_notes, denL_singleton]; omega
 
 theorem den_accent (n : Note) (h : 12 * n.dur.den ≤ Gen.LIMIT_DENOM) :
-    ∀ y, (pure (accent (.note n)) : Res NM) = .ok y → denOK y = true := by
+    ∀ y, accent (.note n) = .ok y → denOK y = true := by
   intro y hy
-  simp only [accent, pure, Except.pure, Except.ok.injEq] at hy
+  simp only [accent, Except.ok.injEq] at hy
   subst hy
   rw [denOK_iff, NM.note_notes, denL_singleton]; show n.dur.den ≤ _; omega
 
@@ -1098,7 +1104,7 @@ theorem single_tag_stages (t : String) (note : Note) (last next : Option Note) (
   by_cases h1 : t = "accent"
   · subst h1
     exact stagesAll_one (pre := (steps id ["accent"] last next).take 0) (post := (steps id ["accent"] last next).drop 1)
-      (f := stepIf true (fun x => pure (accent x))) (by simp) (by simp [steps, stepIf, pure, Except.pure]) hx (den_accent note h)
+      (f := stepIf true accent) (by simp) (by simp [steps, stepIf, pure, Except.pure]) hx (den_accent note h)
   by_cases h2 : t = "mordant"
   · subst h2
     exact stagesAll_one (pre := (steps id ["mordant"] last next).take 1) (post := (steps id ["mordant"] last next).drop 2)
